@@ -94,6 +94,16 @@ func (s *Sandbox) SyncExt(e Ext) error {
 			_ = w("noestablish."+k, "")
 		}
 	}
+	for k, v := range e.WrongEst {
+		if v {
+			_ = w("wrongestablish."+k, "")
+		}
+	}
+	for k, v := range e.SelfKill {
+		if v {
+			_ = w("selfkill."+k, "")
+		}
+	}
 	return nil
 }
 
@@ -303,6 +313,20 @@ func clip(s string) string {
 		return s[:700] + "…"
 	}
 	return s
+}
+
+// WipeCas deletes every blob of the content-addressed store (target results stay) and every declared
+// output in the workspace, so that each restore has to fail.
+func (s *Sandbox) WipeCas(w WS) {
+	for _, c := range s.CacheDirs() {
+		_ = os.RemoveAll(filepath.Join(c, "cas"))
+	}
+	for i := range w.Targets {
+		files, dirs := w.Targets[i].AllOutPaths()
+		for _, p := range append(files, dirs...) {
+			_ = os.RemoveAll(filepath.Join(s.WS, p))
+		}
+	}
 }
 
 // CacheDir returns the workspace cache directory of this sandbox ($GROG_ROOT/<sha256(ws)[:16]>-<base>/cache).
